@@ -756,7 +756,20 @@ impl Object {
 			item.canonicalize_with(buffer);
 		}
 
-		self.sort()
+		// RFC 8785 sorts properties by their UTF-16 code units, which differs
+		// from the byte/code point order used by `sort` for keys mixing
+		// U+E000..U+FFFF and supplementary-plane characters.
+		self.entries.sort_by(|a, b| {
+			a.key
+				.encode_utf16()
+				.cmp(b.key.encode_utf16())
+				.then_with(|| a.value.cmp(&b.value))
+		});
+		self.indexes.clear();
+
+		for i in 0..self.entries.len() {
+			self.indexes.insert(&self.entries, i);
+		}
 	}
 
 	/// Puts this JSON object in canonical form according to
